@@ -589,7 +589,7 @@ PROPS['C02'] = dict(
                'implies what pass 2 requires and that both passes agree on the address of every item.',
     level_note='parser/segment creation: unit DIR #org #seg_switch + witnesses; `.org 0` after code is a recorded finding',
     technique='Verus loop invariants on extracted pass_1_internal/build_pass_1/pass_2_internal/build_pass_2 against recursive layout and fold oracles',
-    verus=['pass1', 'pass2', 'link', 'data', 'encv', 'dir', 'pass0'],
+    verus=['pass1', 'pass2', 'link', 'data', 'encv', 'dir', 'pass0', 'mexp'],
     depends_on=['C09'],   # the items whose positions the property speaks of include those a macro expansion produces: the splice of pass 0 is presupposed
     witnesses=witnesses_layout,
     functions=['builder::pass1::{build_pass_1, pass_1_internal, next_address}', 'builder::pass2::{build_pass_2, pass_2_internal}',
@@ -1040,7 +1040,7 @@ PROPS['C15'] = dict(
     level_note='the rendering "line: N" (fmt::Display) and the message text are dropped by extraction: bound by single-fault witnesses; errors raised '
                'inside pass 0 (macro expansion) and inside an included file are not under contract',
     technique='Verus postconditions on error locations over the extracted passes / Directive::parse / parse_iter (rule R1 keeps the location)',
-    verus=['pass1', 'pass2', 'dir', 'cond', 'data', 'encv', 'expr', 'pass0', 'ctxu'],
+    verus=['pass1', 'pass2', 'dir', 'cond', 'data', 'encv', 'expr', 'pass0', 'ctxu', 'mexp'],
     depends_on=['C10', 'C04'],   # 'an undefined symbol, a duplicate label' (C10) and 'an operand of the wrong kind or out of range' (C04) fail the build: presupposed
     whole_units=['expr'],     # an expression that must fail but evaluates hides the fault: every clause of EXPR counts here
     witnesses=witnesses_c15,
@@ -1112,16 +1112,16 @@ def witnesses_c16(tier, seed):
 
 
 PROPS['C16'] = dict(
-    level_text='Proof, for every function under contract (17 units; see DESIGN.md section 11), with no precondition on user-controlled values: Verus '
+    level_text='Proof, for every function under contract (18 units; see DESIGN.md section 11), with no precondition on user-controlled values: Verus '
                'discharges every index, overflow, shift-amount, division, unwrap obligation and a decreases clause for every loop and recursion '
                '(Expr evaluation with its nesting budget, skip, parse_iter, pass 1/2 loops, the HEX writer); Kani checks the same panics in '
                'each of its harnesses; pass 1 stops at the device capacity so that pass 2 allocates at most the fragment lengths it proves. '
                'Macro expansion (pass0_internal) and file inclusion (parse_file_internal, the .include/.includepath arms) recurse under a '
-               'proved nesting budget. The claim is exactly: from the parsed Document onward, minus macro_expand (the textual substitution) and main.rs.',
-    level_note='NOT under contract (bounded hostile-input witnesses only): action code inside the PEG grammar, macro_expand, utility.rs, main.rs; '
+               'proved nesting budget. macro_expand and the result conversions (as_parse_result, as_pass0_result) are under contract over an explicit model of the Rc<RefCell> state (unit MEXP: its one unwrap and its index arithmetic are discharged from the precondition that pass 0 keeps a segment). The claim is exactly: from the parsed Document onward, minus main.rs.',
+    level_note='NOT under contract (bounded hostile-input witnesses only): action code inside the PEG grammar, Display / String::replace inside macro_expand, utility.rs, main.rs; '
                'stack depth of the generated recursive-descent parser on deeply nested parentheses; std::path / std::fs calls are assumed not to panic',
     technique='panic-freedom and termination obligations generated by Verus/Kani for every extracted function (no preconditions on inputs)',
-    verus=['encv', 'expr', 'data', 'pass1', 'pass2', 'build', 'hex', 'ctxu', 'dir', 'cond', 'pass0', 'inc'],
+    verus=['encv', 'expr', 'data', 'pass1', 'pass2', 'build', 'hex', 'ctxu', 'dir', 'cond', 'pass0', 'inc', 'mexp'],
     kani=[dict(slice='conv', harnesses=lambda tier: _conv_harnesses(tier)), dict(slice='dev', harnesses=lambda tier: _dev_harnesses(tier)),
           dict(slice='exprstep', harnesses=lambda tier: _step_harnesses(tier)), dict(slice='enc', harnesses=_enc_harnesses(), cex=_enc_cex)],
     cex_replay=_enc_witness_from_cex,
@@ -1180,22 +1180,40 @@ PROPS['C09'] = dict(
                'replaced in place and in order by all items of every segment its expansion produced (further code segments under their own '
                'type/address, others as they are), nested calls likewise, nesting bounded, a failing/undefined expansion fails the build; '
                '(b) .macro stores the lower-cased name and skip() files the body under exactly that name; (c) the body is collected verbatim '
-               'up to .endm/.endmacro and the line after it is the next one assembled. The substitution itself (macro_expand: Display of the '
-               'operands, String::replace, re-parsing) is string/iterator-adapter code outside both verifiers and is a stub here.',
-    level_note='"the call behaves as the body with the arguments substituted" is therefore decided only on generated witness programs compared with '
-               'their hand expansion; claimed at proof level for (a)-(c) only',
-    technique='Verus fold oracle for pass0_internal (mutual recursion with a nesting budget) + skip/Directive::parse clauses; macro_expand is an assumed stub',
-    verus=['pass0', 'cond', 'dir'],
+               'up to .endm/.endmacro and the line after it is the next one assembled; (d) macro_expand verbatim (unit MEXP, over an explicit '
+               'model of the Rc<RefCell> state): the body stored under exactly the called name is taken, every line in order under its own '
+               'line number, with @0..@(n-1) replaced one after the other by the text of the like-numbered operand of the call (a call without '
+               'operands takes the body as it is); it is parsed by the ordinary line loop in the symbol / macro / message context of the '
+               'build into a list of its own that starts as one empty code segment at the current address; the call yields every segment '
+               'the body filled, in order, plus the last one; the output list of pass 0 is untouched; an undefined macro is an error at the '
+               'line of the call. as_parse_result / as_pass0_result hand on exactly the non-empty segments in order, the macro table and '
+               'the messages. What "the text of an operand" is (Display) and what replacing / re-parsing text does are named assumptions.',
+    level_note='"the call behaves as the body with the arguments substituted" therefore still rests, for the rendering of an argument and the re-parse of '
+               'the substituted text (the round trip the property names), on generated witness programs compared with their hand expansion; claimed at '
+               'proof level for (a)-(d) only',
+    technique='Verus fold oracle for pass0_internal (mutual recursion with a nesting budget) + skip/Directive::parse clauses + Verus contract on the '
+              'extracted macro_expand / as_pass0_result / as_parse_result against a substitution oracle (Display, str::replace, parse_iter assumed)',
+    verus=['pass0', 'cond', 'dir', 'mexp'],
     witnesses=witnesses_c09,
-    functions=['builder::pass0::pass0_internal', 'parser::skip (EndMacro mode)', 'Directive::parse (Macro arm)'],
-    explanation='p0_items/p0_segs in contracts/pass0.vspec; #macro_body in cond.vspec; #macro in dir.vspec.',
-    assumptions=['macro_expand is an external_body stub: its result and its effect on shared state are uninterpreted functions mexp/menv of '
-                 '(name, operands, macro table, state, current address); the lookup by exact key, the @n substitution and the re-parse are NOT verified',
-                 'build_pass_0 (the 20-line caller) and as_pass0_result (filter of empty segments) are read, not verified',
+    functions=['builder::pass0::pass0_internal', 'builder::pass0::macro_expand', 'Pass0Context::{add_segment, as_pass0_result}',
+               'ParseContext::{add_segment, as_parse_result}', 'parser::skip (EndMacro mode)', 'Directive::parse (Macro arm)'],
+    explanation='p0_items/p0_segs in contracts/pass0.vspec; subst_line/subst_lines/keep_segs/nonempty in contracts/mexp.vspec; #macro_body in cond.vspec; '
+                '#macro in dir.vspec.',
+    assumptions=['unit PASS0 sees macro_expand as a stub whose result and effect are uninterpreted functions mexp/menv of (name, operands, macro table, '
+                 'state, current address); unit MEXP proves that the real function IS such a function (its result and final state are given by '
+                 'explicit spec terms over exactly those arguments) and which one; the two units are linked by reading, not by a shared definition',
+                 'MEXP: fmt::Display of an operand (op_str), format!("@{}", n) (marker), str::replace (replace_all), HashMap::get (tab_get) and '
+                 'parse_iter (pi_res / pi_segs / pi_env: unit COND proves it equal to the line-loop fold) are uninterpreted',
+                 'MEXP: the state behind Rc<RefCell<..>> handles is an explicit parameter `vfw_w` added to the signatures (A-alias): a handle is '
+                 'an identity, Rc::clone shares it, Rc::new(RefCell::new(..)) makes a fresh one; parse_iter changes only the list behind its '
+                 'context\'s segment handle and the shared environment',
+                 'MEXP: Pass0Context::last_segment() is read as "the last element of the list" (its body is slice::last + Rc::clone)',
+                 'R21: `.iter()[.enumerate()].filter(|..| P).map(|..| E).collect()` as the index loop `if P { out.push(E) }` (closure bodies verbatim)',
+                 'build_pass_0 constructs its Pass0Context by a struct literal that unit PASS0 abstracts as new_from (read, not verified)',
                  'R17: for x in v.iter().skip(1) as an index loop'],
     trusted=['spec/macro_sem.py (witness generator and textual hand expansion)'],
     bounded=['150 (quick) / 1500 (thorough) generated macro programs (registers, pointer forms, expressions of every precedence with and without '
              'parentheses as arguments; conditionals on parameters; nested calls; bodies switching segments; calls before the definition; any '
              'letter case) built with macros and hand-expanded; 4 fixed error cases'],
-    not_decided=['argument rendering / substitution / re-parse (macro_expand): witnesses only'],
+    not_decided=['argument rendering (Display) and the re-parse of substituted text: witnesses only'],
 )
